@@ -1,4 +1,5 @@
 import OrbitModel.Proofs.WritersInv
+import OrbitModel.Proofs.ViewRace
 /-!
 # C17 — concurrent writes on one store are each recorded exactly once and recoverable
 
@@ -24,5 +25,24 @@ store with the two write-path hooks (corpus/C17). -/
 theorem pinned_tree_loses_acknowledged_write :
     let s := run false (init 2) [0, 1, 1, 0]
     acked s = [1, 2] ∧ s.cache = some 1 ∧ recovered s = [1] := pinned_loses_acked_write
+
+/-- "all of them are visible in the store": for every number of writers and EVERY interleaving of
+their steps (`Model/ViewRace.lean`: append; then copy the log and rebuild the view, one atomic step
+after the `fix:` commit), a writer that has returned finds its entry reflected by the view, and once
+all have returned the view reflects the whole log. -/
+theorem every_returned_write_is_in_the_view (n : Nat) (sched : List Nat) :
+    (∀ pc ∈ (View.run true (View.init n) sched).pcs, ∀ e, pc = .done e →
+        e ≤ (View.run true (View.init n) sched).view) ∧
+    (View.allDone (View.run true (View.init n) sched) = true →
+        (View.run true (View.init n) sched).view = (View.run true (View.init n) sched).logLen) :=
+  ⟨View.returned_writes_are_in_the_view n sched, View.view_complete_when_all_returned n sched⟩
+
+/-- Refutation witness for the tree before that repair (finding F19): the log was copied before the
+index lock was taken; the writer holding the older copy writes last and both writers have returned
+with a view that lacks the newer entry. Replayed on the real store with the hook after the copy
+(corpus/C17, corpus/C06). -/
+theorem unlocked_copy_left_a_stale_view :
+    let s := View.run false (View.init 2) [0, 0, 1, 1, 1, 0]
+    View.allDone s = true ∧ s.logLen = 2 ∧ s.view = 1 := View.unlocked_copy_leaves_a_stale_view
 
 end Orbit.C17
